@@ -66,7 +66,7 @@ BaseExpected(B) == IF SetupTag(B.S, SW) # "ok" THEN "nosetup" ELSE StepSem(B.S, 
 
 \* raw requests
 SemOk(B) == IF B.hist = "retry" THEN B.sem2.ok ELSE B.sem.ok
-IsCanonReq(rec) == rec.m.k = "none" /\ rec.w.k = "none"
+IsCanonReq(rec) == rec.m.k = "none" /\ rec.m2.k = "none" /\ rec.w.k = "none"
 RawJudge(i) ==
   LET rec  == Log[i]
       B    == BaseOf(rec)
@@ -78,7 +78,7 @@ RawJudge(i) ==
                \cup (IF Bad_RawEquiv(SemOk(B), IsCanonReq(rec), rec.resp) THEN {"raw_not_equivalent"} ELSE {}) IN
   [i |-> i, rules |-> rules, ok |-> rec.resp.ok, bad |-> bad,
    tag |-> StepRaw(rec.tx, rec.ws, B.S, B.C, pool, B.hist = "retry" /\ B.sem.ok, SW).tag,
-   conc |-> /\ IsMutant(rec.tx, B.canon, rec.m, B.S, B.C)
+   conc |-> /\ IsMutant(rec.tx, B.canon, rec.m, rec.m2, B.S, B.C)
             /\ rec.ws = WsFor(rec.tx, B.canon, rec.w)
             /\ rec.bytes_eq_canon = (TxBV(rec.tx) = TxBV(B.canon))]
 JudgedAt == TLCEval([i \in RawIdx |-> RawJudge(i)])
@@ -99,11 +99,11 @@ C04 == l >= 1 => (IF Log[l].k = "base" THEN BaseBadAt[l] = {} ELSE IF Log[l].k =
 Matches(model, real) ==
   \/ model = real
   \/ model = "top" /\ (real \in {"panic", "policy"})
-MKey(rec) == <<rec.m.k, rec.m.f, rec.w.k, rec.w.base>>
+MKey(rec) == <<rec.m.k, rec.m.f, rec.m2.k, rec.w.k, rec.w.base>>
 Describe(j) ==
   LET rec == Log[j.i] B == BaseOf(rec) IN
   [line |-> j.i, b |-> rec.b, id |-> rec.id, name |-> B.name, ct |-> B.S.ct, hist |-> B.hist, kinds |-> SetToSeq(j.bad),
-   rules |-> SetToSeq(j.rules), expected |-> j.tag, m |-> rec.m, w |-> rec.w, resp |-> rec.resp, tx |-> rec.tx,
+   rules |-> SetToSeq(j.rules), expected |-> j.tag, m |-> rec.m, m2 |-> rec.m2, w |-> rec.w, resp |-> rec.resp, tx |-> rec.tx,
    S |-> B.S, C |-> B.C]
 DescribeBase(i) ==
   [line |-> i, b |-> Log[i].b, id |-> 0, name |-> Log[i].name, ct |-> Log[i].S.ct, hist |-> Log[i].hist,
@@ -171,8 +171,9 @@ Report ==
     conc_bad_bases |-> [k \in DOMAIN First(ConcBadBase, 6) |-> DescribeBase(First(ConcBadBase, 6)[k])],
     sample       |-> LET S1 == {j \in Granted : IsCanonReq(Log[j.i]) /\ Len(Log[j.i].tx.outs) > 4}
                          S2 == {j \in Judged : ~j.ok /\ Cardinality(j.rules) = 1 /\ Log[j.i].m.k = "out"}
+                         S4 == {j \in Judged : ~j.ok /\ Cardinality(j.rules) = 2 /\ Log[j.i].m2.k # "none"}
                          S3 == {j \in Granted : ~IsCanonReq(Log[j.i]) /\ Log[j.i].m.k # "none"}
-                         pick == First(S1, 1) \o First(S2, 2) \o First(S3, 1) IN
+                         pick == First(S1, 1) \o First(S2, 2) \o First(S3, 1) \o First(S4, 1) IN
                      [k \in DOMAIN pick |-> Describe(pick[k])] ]
 
 ASSUME JsonSerialize(IOEnv.CT_REPORT, Report)
